@@ -226,6 +226,7 @@ def main(argv=None) -> int:
     if violations or b_fail_new:
         os.makedirs(replay_dir, exist_ok=True)
     used = set()
+    n_rep: Dict[str, int] = {}
     for o in violations:
         fn = o["function"].split("[")[0]
         wit = None
@@ -235,7 +236,10 @@ def main(argv=None) -> int:
                 used.add(id(f))
                 break
         if wit is None and (o.get("replay") or {}).get("repro"):
-            ok, out = run_repro(o["replay"]["repro"])
+            # replay at most a few counterexamples per function natively (each costs an interpreter start); the rest of the
+            # function's refuted obligations keep their own input in the replay file, to be run with `./check --replay`
+            n_rep[fn] = n_rep.get(fn, 0) + 1
+            ok, out = run_repro(o["replay"]["repro"]) if n_rep[fn] <= 4 else (True, "not replayed in this run (more than 4 counterexamples for this function); run ./check --replay on this file")
             if ok:
                 wit = {"key": "replayed:" + base_name(o["name"]), "function": fn, "what": out[-1500:], "repro": o["replay"]["repro"]}
         path = os.path.join(replay_dir, re.sub(r"[^A-Za-z0-9_.-]+", "_", o["name"])[:150] + ".json")
